@@ -293,6 +293,64 @@ pub fn exec_proto(h: &str) -> String {
     }
 }
 
+/// `getsize S_node S_src v codec code digest`: a fresh `Behaviour<S_node, _>` is asked for a
+/// `CidGeneric<S_src>`; report whether the query is answered with an invalid-size error or turns
+/// into a blockstore lookup.
+fn getsize_node<const SN: usize, const SS: usize>(ver: u64, codec: u64, code: u64, digest: &[u8]) -> String {
+    use std::task::Poll;
+    let Ok(mh) = Multihash::<SS>::wrap(code, digest) else { return "invalid-cid".into() };
+    let cid = if ver == 0 {
+        match CidGeneric::<SS>::new_v0(mh) {
+            Ok(c) => c,
+            Err(_) => return "invalid-cid".into(),
+        }
+    } else {
+        CidGeneric::<SS>::new_v1(codec, mh)
+    };
+    let store = crate::store::ScriptedStore::new();
+    let mut node = beetswap::Behaviour::<SN, _>::new(Arc::new(store.clone()));
+    let q = format!("{:?}", node.get(&cid));
+    let waker = noop_waker();
+    let mut cx = Context::from_waker(&waker);
+    let mut events = vec![];
+    for _ in 0..20 {
+        use libp2p_swarm::NetworkBehaviour;
+        match node.poll(&mut cx) {
+            Poll::Ready(libp2p_swarm::ToSwarm::GenerateEvent(beetswap::Event::GetQueryError { query_id, error })) => {
+                events.push(format!("err:{}:{}", (format!("{query_id:?}") == q) as u8, matches!(error, beetswap::Error::InvalidMultihashSize) as u8))
+            }
+            Poll::Ready(_) => events.push("other".into()),
+            Poll::Pending => break,
+        }
+    }
+    let started = store.take_started();
+    match (events.as_slice(), started.as_slice()) {
+        ([], [(_, crate::store::CallKind::Get(c))]) => {
+            // the lookup must be for the same CID (version, codec, code, digest)
+            match CidGeneric::<SN>::try_from(&c[..]) {
+                Ok(c2) if u64::from(c2.version()) == ver.min(1) && c2.codec() == cid.codec() && c2.hash().code() == code && c2.hash().digest() == digest => "lookup".into(),
+                _ => "lookup-of-another-cid".into(),
+            }
+        }
+        ([e], []) if e == "err:1:1" => "err".into(),
+        (ev, st) => format!("odd events={} lookups={}", ev.join(","), st.len()),
+    }
+}
+
+fn getsize(sn: usize, ss: usize, ver: u64, codec: u64, code: u64, digest: &[u8]) -> String {
+    match (sn, ss) {
+        (32, 32) => getsize_node::<32, 32>(ver, codec, code, digest),
+        (32, 64) => getsize_node::<32, 64>(ver, codec, code, digest),
+        (32, 128) => getsize_node::<32, 128>(ver, codec, code, digest),
+        (64, 32) => getsize_node::<64, 32>(ver, codec, code, digest),
+        (64, 64) => getsize_node::<64, 64>(ver, codec, code, digest),
+        (64, 128) => getsize_node::<64, 128>(ver, codec, code, digest),
+        (40, 64) => getsize_node::<40, 64>(ver, codec, code, digest),
+        (40, 128) => getsize_node::<40, 128>(ver, codec, code, digest),
+        _ => "bad-size".into(),
+    }
+}
+
 pub fn exec_cid(toks: &[&str]) -> Option<String> {
     let kv = |t: &str, k: &str| -> Option<String> { t.strip_prefix(k).map(|s| s.to_string()) };
     let r = catch_unwind(AssertUnwindSafe(|| -> Option<String> {
@@ -340,6 +398,10 @@ pub fn exec_cid(toks: &[&str]) -> Option<String> {
                 by_size!(s, procmsg_s, &spec, msg)
             }
             ["proto", h] => exec_proto(h),
+            ["getsize", sn, ss, ver, codec, code, digest] => {
+                let digest = unhex(digest)?;
+                getsize(sn.parse().ok()?, ss.parse().ok()?, ver.parse().ok()?, codec.parse().ok()?, code.parse().ok()?, &digest)
+            }
             _ => return None,
         })
     }));
